@@ -207,8 +207,9 @@ package interp
 //@   opt opaque-calls = *
 //@   opt opaque-havoc = none
 //@   requires [assume] n != nil && len(n.child) >= 2 && n.child[1] != nil
-//@   ensures real-part: old(n.child[1].rval.IsValid()) ==> rvFloat(n.rval) == creal(old(rvComplex(n.child[1].rval)))
-//@   canary old(n.child[1].rval.IsValid()) ==> rvFloat(n.rval) == cimag(old(rvComplex(n.child[1].rval)))
+//@   -- the operand is read with vComplex, which also understands an untyped constant (a go/constant value)
+//@   ensures real-part: old(n.child[1].rval.IsValid()) ==> rvFloat(n.rval) == creal(vComplex(old(n.child[1].rval)))
+//@   canary old(n.child[1].rval.IsValid()) ==> rvFloat(n.rval) == cimag(vComplex(old(n.child[1].rval)))
 
 //@ func imagConst(n)
 //@   props C03
@@ -217,8 +218,8 @@ package interp
 //@   opt opaque-calls = *
 //@   opt opaque-havoc = none
 //@   requires [assume] n != nil && len(n.child) >= 2 && n.child[1] != nil
-//@   ensures imaginary-part: old(n.child[1].rval.IsValid()) ==> rvFloat(n.rval) == cimag(old(rvComplex(n.child[1].rval)))
-//@   canary old(n.child[1].rval.IsValid()) ==> rvFloat(n.rval) == creal(old(rvComplex(n.child[1].rval)))
+//@   ensures imaginary-part: old(n.child[1].rval.IsValid()) ==> rvFloat(n.rval) == cimag(vComplex(old(n.child[1].rval)))
+//@   canary old(n.child[1].rval.IsValid()) ==> rvFloat(n.rval) == creal(vComplex(old(n.child[1].rval)))
 
 // The default type of an untyped constant (Go spec, Constants): by the kind of its VALUE when the value is
 // known — an integer value is an int (int32 for a rune constant) whatever arithmetic produced it, so
@@ -266,3 +267,23 @@ package interp
 //@   ensures comparison-of-two-constants-is-folded: cmpAction(n.action) && old(bothConst(n)) && old(foldable(n)) ==> n.rval.IsValid() && rvBool(n.rval) == constCompare(old(c0v(n)), constCmp[n.action], old(c1v(n)))
 //@   ensures anything-else-is-left-alone: !(cmpAction(n.action) && old(bothConst(n)) && old(foldable(n))) ==> n.rval == old(n.rval)
 //@   canary cmpAction(n.action) && old(bothConst(n)) && old(foldable(n)) ==> rvBool(n.rval) == constCompare(old(c1v(n)), constCmp[n.action], old(c0v(n)))
+
+// x && y and x || y of two boolean constants are constants (Go spec, Constant expressions): the node gets
+// the value, so that `const both = a && b` is defined by it.
+//@ pred plainBool(c): c.rval.IsValid() && !isConstantValue(c.rval.Type()) && c.rval.Kind() == reflect.Bool
+//@ lit Interpreter.cfg case:landExpr () ()
+//@   props C03
+//@   opt safety = off
+//@   opt opaque-calls = *
+//@   opt opaque-havoc = none
+//@   opt inline = constBool
+//@   requires [assume] n != nil && len(n.child) == 2 && n.child[0] != nil && n.child[1] != nil && n.child[0] != n && n.child[1] != n && sc != nil
+//@   ensures conjunction-of-constants-is-a-constant: err == nil && old(plainBool(n.child[0]) && plainBool(n.child[1])) ==> n.rval.IsValid() && rvBool(n.rval) == (old(rvBool(n.child[0].rval)) && old(rvBool(n.child[1].rval)))
+//@ lit Interpreter.cfg case:lorExpr () ()
+//@   props C03
+//@   opt safety = off
+//@   opt opaque-calls = *
+//@   opt opaque-havoc = none
+//@   opt inline = constBool
+//@   requires [assume] n != nil && len(n.child) == 2 && n.child[0] != nil && n.child[1] != nil && n.child[0] != n && n.child[1] != n && sc != nil
+//@   ensures disjunction-of-constants-is-a-constant: err == nil && old(plainBool(n.child[0]) && plainBool(n.child[1])) ==> n.rval.IsValid() && rvBool(n.rval) == (old(rvBool(n.child[0].rval)) || old(rvBool(n.child[1].rval)))
